@@ -97,6 +97,79 @@ def rule_directed(m, uni, rng, tier):
     return out + extra
 
 
+def converse_shapes(m, uni):
+    """a connective together with the same connective over the same terms in other roles: an implication and its
+    converse, two ITEs over the same three terms, iff/and/or with permuted arguments -- under both polarities and
+    inside and/or/not contexts (a definition table that forgets the argument order shows up here)"""
+    p, q, r = uni.syms[BOOL]
+    x, y = uni.syms[INT][0], uni.syms[INT][1]
+    lt = m.LT(x, y)
+    out = []
+    pairs = [(p, q), (p, m.Not(q)), (p, lt), (m.And(p, r), q), (lt, m.Equals(x, y))]
+    for a, b in pairs:
+        ab, ba = m.Implies(a, b), m.Implies(b, a)
+        out += [m.Or(ab, ba), m.And(ab, m.Not(ba)), m.And(m.Not(ab), ba), m.Iff(ab, ba), m.Implies(ab, ba),
+                m.Not(m.Or(ab, ba)), m.Not(m.And(ab, m.Not(ba))), m.And(r, m.Or(m.Not(ab), ba)),
+                m.Or(r, m.And(ab, m.Not(ba))), m.Ite(ab, ba, r), m.Ite(r, ab, m.Not(ba))]
+        for C in (m.And, m.Or, m.Iff):
+            c1, c2 = C(a, b), C(b, a)
+            out += [m.And(c1, m.Not(c2)), m.Or(m.Not(c1), c2), m.Iff(c1, m.Not(c2))]
+    triples = [(p, q, r), (p, m.Not(q), lt), (lt, p, q)]
+    for a, b, c in triples:
+        i1, i2, i3 = m.Ite(a, b, c), m.Ite(b, a, c), m.Ite(c, b, a)
+        for u, v in ((i1, i2), (i1, i3), (i2, i3)):
+            out += [m.And(u, m.Not(v)), m.And(m.Not(u), v), m.Or(u, v), m.Iff(u, v), m.Implies(u, v),
+                    m.Not(m.Or(u, m.Not(v))), m.And(m.Or(u, a), m.Not(v))]
+    return out
+
+
+def ack_shapes(m, uni):
+    """functions of arity 2-3 over Int/Bool/BV; pairs of applications that share constants in some positions and have
+    symbols in the others, with equalities / disequalities between the symbols and between the applications, also
+    nested -- the shapes on which a missing or wrong consistency constraint is observable"""
+    I2, B2 = INT, BVType(2)
+    x, y, z = uni.syms[INT]
+    p, q, _ = uni.syms[BOOL]
+    b0, b1 = uni.syms[B2]
+    funs = [m.Symbol("k2", FunctionType(INT, [INT, INT])),
+            m.Symbol("k3", FunctionType(INT, [INT, BOOL, INT])),
+            m.Symbol("kv", FunctionType(B2, [B2, INT])),
+            m.Symbol("kp", FunctionType(BOOL, [INT, INT])),
+            m.Symbol("kq", FunctionType(BOOL, [BOOL, B2, BOOL]))]
+    consts = {INT: [m.Int(0), m.Int(7)], BOOL: [m.TRUE(), m.FALSE()], B2: [m.BV(0, 2), m.BV(3, 2)]}
+    symsA = {INT: x, BOOL: p, B2: b0}
+    symsB = {INT: y, BOOL: q, B2: b1}
+    out = []
+    for F in funs:
+        pts = list(F.symbol_type().param_types)
+        n = len(pts)
+        for cpos in range(n):                      # the position that carries the same literal in both applications
+            for ci in (0, 1):
+                a1 = [consts[t][ci] if i == cpos else symsA[t] for i, t in enumerate(pts)]
+                a2 = [consts[t][ci] if i == cpos else symsB[t] for i, t in enumerate(pts)]
+                a3 = [consts[t][1 - ci] if i == cpos else symsB[t] for i, t in enumerate(pts)]
+                A1, A2, A3 = m.Function(F, a1), m.Function(F, a2), m.Function(F, a3)
+                eqs = m.And([m.EqualsOrIff(u, v) for i, (u, v) in enumerate(zip(a1, a2)) if i != cpos])
+                same = m.EqualsOrIff(A1, A2)
+                out += [m.And(eqs, m.Not(same)), m.Implies(eqs, same), m.Or(m.Not(eqs), same), m.Not(same),
+                        m.And(m.Not(eqs), same), m.And(eqs, m.Not(same), m.Not(m.EqualsOrIff(A2, A3))),
+                        m.Iff(eqs, same)]
+                rt = F.symbol_type().return_type
+                if rt in pts:                          # nested: the application again as an argument
+                    j = pts.index(rt)
+                    n1 = m.Function(F, [A1 if i == j else a for i, a in enumerate(a1)])
+                    n2 = m.Function(F, [A2 if i == j else a for i, a in enumerate(a2)])
+                    out += [m.And(eqs, m.Not(m.EqualsOrIff(n1, n2))), m.Implies(eqs, m.EqualsOrIff(n1, n2)),
+                            m.And(same, m.Not(m.EqualsOrIff(n1, n2)))]
+    # both positions constant / mixed constants
+    k2 = funs[0]
+    out += [m.Not(m.Equals(m.Function(k2, [m.Int(0), m.Int(1)]), m.Function(k2, [m.Int(0), m.Int(1)]))),
+            m.And(m.Equals(x, m.Int(1)), m.Not(m.Equals(m.Function(k2, [m.Int(0), x]), m.Function(k2, [m.Int(0), m.Int(1)])))),
+            m.And(m.Equals(x, y), m.Equals(y, z),
+                  m.Not(m.Equals(m.Function(k2, [m.Int(7), x]), m.Function(k2, [m.Int(7), z]))))]
+    return out
+
+
 def ack_directed(m, uni):
     x, y, z = uni.syms[INT]
     p = uni.syms[BOOL][0]
@@ -125,6 +198,8 @@ def gen_cases(rng, tier):
     cases = []
     for f in rule_directed(m, uni, rng, tier):
         cases.append(("cnf", f, "rule"))
+    for f in converse_shapes(m, uni):
+        cases.append(("cnf", f, "converse"))
     fg = gen.FormulaGen(rng, uni, max_depth=4, quant_prob=0.0, share_prob=0.3)
     n_rand = 350 if tier == "quick" else 9000
     for _ in range(n_rand):
@@ -133,7 +208,7 @@ def gen_cases(rng, tier):
         if rng.random() < 0.2:
             f = m.Not(f)
         cases.append(("cnf", f, "random"))
-    for f in ack_directed(m, uni):
+    for f in ack_directed(m, uni) + ack_shapes(m, uni):
         cases.append(("ack", f, "rule"))
     fga = gen.FormulaGen(rng, uni, max_depth=4, quant_prob=0.0, share_prob=0.35)
     n_ack = 260 if tier == "quick" else 5000
@@ -274,9 +349,14 @@ def interps_for(f, ig, rng, k):
     out = []
     for j in range(k):
         syms, fns, doms = ig.for_formula(f)
-        # small values make equalities between arguments likely
-        if j % 2 == 1:
-            syms = [(n, t, (rng.choice([0, 1]) if t.is_int_type() else v)) for (n, t, v) in syms]
+        if j % 3 == 1:
+            # small values make equalities between arguments likely
+            syms = [(n, t, (rng.choice([0, 1]) if t.is_int_type() else
+                            ("bv", t.width, rng.choice([0, 1])) if t.is_bv_type() else v)) for (n, t, v) in syms]
+        elif j % 3 == 2:
+            # all symbols of one sort get the same value: every equality between symbols holds
+            per = {}
+            syms = [(n, t, per.setdefault(str(t), v)) for (n, t, v) in syms]
         out.append((syms, fns, doms))
     return out
 
